@@ -21,10 +21,15 @@ theorem tmRemoveTimeout_steps {l l' : Led} {h : Nat} {id : TId} (e : tmRemoveTim
 theorem tmBegin_steps (l : Led) (cur : Nat) (id : TxId) (t : Nat) (f : Bool) : Steps l (tmBegin l cur id t f).1 := by
   unfold tmBegin; steps_tac
 
-theorem tmBeginInter_steps {l : Led} {cur : Nat} {id : TxId} {t : Nat} {f : Bool} {r : Led × StatusChange}
-    (e : tmBeginInter l cur id t f = .ok r) : Steps l r.1 := by
+theorem tmBeginInter_steps {l : Led} {cur : Nat} {id : TxId} {t : Nat} {x : Ext} {f : Bool} {r : Led × StatusChange}
+    (e : tmBeginInter l cur id t x f = .ok r) : Steps l r.1 := by
   unfold tmBeginInter at e
   split at e
+  · split at e
+    · cases e
+    · split at e
+      · cases e
+      · cases e; steps_tac
   · cases e
   · cases e; steps_tac
 
@@ -162,8 +167,10 @@ theorem handleIBTP_steps {env : Env} {l : Led} {i : Ibtp} {r : Led × String}
         split at hr
         · exact beginTransaction_steps hr
         · split at hr
+          · split at hr
+            · cases hr
+            · rename_i x hx; cases hr; exact tmReport_steps hx
           · cases hr
-          · rename_i x hx; cases hr; exact tmReport_steps hx
       have h2 := notifySrcDst_steps env l1 ck.src ck.dst c ck.isBatch
       have h3 := processIBTP_steps (notifySrcDst env l1 ck.src ck.dst c ck.isBatch) i ck c
       have h123 := Steps.trans (Steps.trans h1 h2) h3
